@@ -891,3 +891,111 @@ Example ex_guard :
        mkFeat Z 1 KImage [mkPart Z 0 false false 54 [20; 21; 22; 23]]])
     true [1; 0; 1] = true.
 Proof. vm_compute. reflexivity. Qed.
+
+(* ---- uniform event count, metadata ------------------------------------------- *)
+Section Uniform.
+  Variable A : Type.
+  Variables (d z : A) (enum : Z -> A).
+
+  Lemma spec_content_len filtered filt fs f p :
+    In f fs -> In p (f_parts f) ->
+    len (spec_content A d enum filtered filt (spec_lim A false fs)
+                      (f_kind f) (p_data p))
+    = spec_count filtered filt (spec_lim A false fs).
+  Proof.
+    intros Hf Hp. pose proof (in_lengths A fs f p Hf Hp) as Hin.
+    unfold spec_lim. destruct (lengths A fs) as [|h t] eqn:El; [destruct Hin|].
+    pose proof (zmin_le h t _ Hin) as Hmin.
+    assert (H0 : 0 <= zmin_list h t).
+    { pose proof (zmin_in h t) as Hi. rewrite <- El in Hi.
+      apply lengths_inv in Hi. destruct Hi as (f' & p' & _ & _ & ->).
+      apply len_nonneg. }
+    set (lmin := zmin_list h t) in *.
+    assert (Hl : len (spec_content A d enum filtered filt (Some lmin)
+                        (f_kind f) (p_data p))
+                 = len (spec_idx A filtered filt (Some lmin) (p_data p))).
+    { unfold spec_content, len, take.
+      destruct (f_kind f); rewrite map_length, ?zrange_length; reflexivity. }
+    rewrite Hl. unfold spec_idx, spec_count.
+    rewrite (filter_ext _ (fun j => j <? lmin)) by (intros i; lia).
+    destruct filtered; [reflexivity|].
+    rewrite filter_lt_zrange by (unfold len in *; lia).
+    unfold len. rewrite zrange_length. lia.
+  Qed.
+
+  Lemma export_uniform cfg ds filt filtered req (calls : list (call A)) cnt :
+    wf_ds A ds -> len filt = ds_len ds ->
+    export A d z enum cfg ds filt filtered false req = Ok (calls, cnt) ->
+    exists fs,
+      lookup_all A ds (sortset req) = Ok fs
+      /\ (forall f p, In f fs -> In p (f_parts f) ->
+            len (content A calls (f_name f) (p_key p))
+            = spec_count filtered filt (spec_lim A false fs))
+      /\ (calls <> [] -> cnt = spec_count filtered filt (spec_lim A false fs)).
+  Proof.
+    intros Hwf Hlen H.
+    destruct (export_selects A d z enum cfg ds filt filtered false req calls cnt
+                Hwf Hlen H) as (fs & El & _ & Hc & _ & Hcnt & _).
+    exists fs. split; [assumption|]. split.
+    - intros f p Hf Hp. rewrite (Hc f p Hf Hp). now apply spec_content_len.
+    - intros Hne. destruct (Hcnt Hne) as (f & p & Hf & Hp & ->).
+      rewrite (Hc f p Hf Hp). now apply spec_content_len.
+  Qed.
+
+  Lemma export_meta_spec rnd cfg ds innate sm filt filtered skip logs tables
+        basins features (calls : list (call A)) om :
+    wf_ds A ds -> len filt = ds_len ds ->
+    export_full A d z enum rnd cfg ds innate sm filt filtered skip logs tables
+                basins features = Ok (calls, om) ->
+    exists cnt,
+      export A d z enum cfg ds filt filtered skip (req_features features innate)
+      = Ok (calls, cnt)
+      /\ om_count om = cnt
+      /\ (filtered = true -> om_runid om = Some (meas_id sm, Some rnd))
+      /\ (filtered = false ->
+            om_runid om = match sm_runid sm with
+                          | Some r => Some (Some r, None)
+                          | None => None
+                          end)
+      /\ om_sample om = sm_sample sm
+      /\ (forall l, In l (om_logs om) <-> logs = true /\ In l (sm_logs sm))
+      /\ (forall t, In t (om_tables om) <-> tables = true /\ In t (sm_tables sm))
+      /\ (features = None -> forall n k, ~ In n innate -> content A calls n k = [])
+      /\ (features = Some [] ->
+            calls = [] /\ cnt = if filtered then count_true filt else ds_count ds)
+      /\ (forall b, export_full A d z enum rnd cfg ds innate sm filt filtered skip
+                      logs tables b features = Ok (calls, om)).
+  Proof.
+    intros Hwf Hlen H. unfold export_full in H.
+    destruct (export A d z enum cfg ds filt filtered skip
+                (req_features features innate)) as [[cs cnt]|c] eqn:E;
+      cbn [bind] in H; [|discriminate].
+    cbn [fst snd] in H. inversion H; subst calls om. clear H.
+    exists cnt. split; [reflexivity|]. split; [reflexivity|].
+    cbn [om_runid om_sample om_logs om_tables export_meta].
+    split; [intros ->; reflexivity|]. split; [intros ->; reflexivity|].
+    split; [reflexivity|].
+    split; [intros l; destruct logs; cbn [In]; intuition congruence|].
+    split; [intros t; destruct tables; cbn [In]; intuition congruence|].
+    split; [|split].
+    - intros -> n k Hn. cbn [req_features] in E.
+      destruct (export_selects A d z enum cfg ds filt filtered skip innate cs cnt
+                  Hwf Hlen E) as (fs & _ & _ & _ & Hno & _).
+      apply Hno. now rewrite sortset_In.
+    - intros ->. cbn [req_features] in E. unfold export in E.
+      cbn [sortset fold_right lookup_all bind bind_all] in E.
+      unfold filter_arr, event_count in E. cbn [lengths flat_map] in E.
+      destruct skip, filtered; inversion E; split; reflexivity.
+    - intros b. unfold export_full. rewrite E. reflexivity.
+  Qed.
+End Uniform.
+
+Example ex_export_full :
+  export_full Z 0 0 (fun k => k) 7 1
+    (mkDs Z true 3 3 [mkFeat Z 0 KScalar [mkPart Z 0 true true 8 [10; 11; 12]];
+                      mkFeat Z 1 KScalar [mkPart Z 0 true true 8 [20; 21; 22]]])
+    [0] (mkSmeta None (Some 99) 5 [1; 2] [3]) [true; false; true]
+    true false true false true None
+  = Ok ([(0, 0, [10; 12])],
+        mkOmeta (Some (Some 99, Some 7)) 5 2 [1; 2] []).
+Proof. vm_compute. reflexivity. Qed.
